@@ -55,6 +55,12 @@ class EnsureUniqueLabels(Contract):
         arr = A.LabelArr(ctx)
         L0, n = arr.L, arr.n
         ctx.assume(n >= 0)
+        if cfg.get("multiseg"):
+            # (h, t, ...) input: shape[0] is the number of hypotheses h, the flattened view has n = h*t frames
+            h = ctx.fresh("hypotheses", Int)
+            ctx.assume(AND(h >= 0, h <= n))
+            arr.lead = h
+        lead0 = arr.lead
         ctx.assume(forall([j_, p_], L0(j_, p_) >= 0))  # label arrays hold non-negative integers
         ctx.loopspecs[(EUL, 0)] = EULoop(L0)
         out = call_real(I, EUL, [arr], {"multiseg": bool(cfg.get("multiseg", False))})
@@ -75,7 +81,7 @@ class EnsureUniqueLabels(Contract):
                    forall([j_, p_], IMP(inr(j_), (L(j_, p_) == 0) == (L0(j_, p_) == 0))), props=self.props)
         ctx.oblige(f"C19/{q}/ensures:partition-into-regions-unchanged-in-every-frame",
                    forall([j_, p_, q_], IMP(inr(j_), (L(j_, p_) == L(j_, q_)) == (L0(j_, p_) == L0(j_, q_)))), props=self.props)
-        ctx.oblige(f"C19/{q}/ensures:same-number-of-frames", res.n == n, props=self.props)
+        ctx.oblige(f"C19/{q}/ensures:same-number-of-frames-and-shape", AND(res.n == n, res.lead == lead0), props=self.props)
         return out
 
 
